@@ -41,6 +41,7 @@ impl Prop for C04 {
         cfg.max_items = 8;
         cfg.max_depth = 3;
         cfg.cond_weight = 9;
+        cfg.glue = campaign == "conds" && t.chance(1, 3);
         let case = gen_case(ctx, t, &cfg)?;
         let o = compare_with_model(ctx, "C04", case, st)?;
         let ms = &o.model.stats;
@@ -58,6 +59,9 @@ impl Prop for C04 {
         }
         if o.case.k2_sites > 0 {
             st.class("has K2 trigger site");
+        }
+        if o.case.glue_sites > 0 {
+            st.class("plain token directly in front of a conditional directive");
         }
         if !o.case.initial.is_empty() {
             st.class("caller-supplied defines");
